@@ -7,7 +7,7 @@ use signalo_pipes::{pipe::Pipe, unit_pipe::UnitPipe};
 use signalo_sinks as sinks;
 use signalo_sources as sources;
 use signalo_traits::{Filter, Finalize, Sink, Source};
-use std::cell::RefCell;
+use std::cell::{Cell, RefCell};
 use std::collections::HashMap;
 use std::ops::BitOr;
 use std::rc::Rc;
@@ -544,6 +544,14 @@ pub struct Probe {
     inner: ProbeInner,
     idx: usize,
     log: Log,
+    /// how many probe stages of this pipe exist at the moment (a stage that owns something the sink reaches through a
+    /// handle, or whose end of life has an effect, must still be there when the sink is finalised)
+    alive: Rc<Cell<i64>>,
+}
+impl Drop for Probe {
+    fn drop(&mut self) {
+        self.alive.set(self.alive.get() - 1);
+    }
 }
 impl Filter<Q> for Probe {
     type Output = Q;
@@ -604,16 +612,22 @@ impl Source for SDyn {
     }
 }
 
-pub struct SinkLeaf(Box<dyn DynSink>);
+pub struct SinkLeaf {
+    inner: Box<dyn DynSink>,
+    alive: Rc<Cell<i64>>,
+    /// the number of upstream stages that existed when this sink was finalised
+    seen: Rc<Cell<i64>>,
+}
 impl Sink<Q> for SinkLeaf {
     fn sink(&mut self, x: Q) {
-        self.0.sink(Val::Q(x))
+        self.inner.sink(Val::Q(x))
     }
 }
 impl Finalize for SinkLeaf {
     type Output = String;
     fn finalize(self) -> String {
-        self.0.fin()
+        self.seen.set(self.alive.get());
+        self.inner.fin()
     }
 }
 
@@ -699,6 +713,8 @@ struct Parts {
     leaves: Vec<Option<Probe>>,
     source: Option<BoxSrc>,
     sink: Option<Box<dyn DynSink>>,
+    alive: Rc<Cell<i64>>,
+    seen: Rc<Cell<i64>>,
 }
 
 fn build_dyn(sh: &Sh, parts: &mut Parts) -> Dyn {
@@ -752,7 +768,11 @@ fn build_sdyn(sh: &Sh, parts: &mut Parts) -> SDyn {
 }
 fn build_kdyn(sh: &Sh, parts: &mut Parts) -> KDyn {
     match sh {
-        Sh::Snk => KDyn::Snk(SinkLeaf(parts.sink.take().expect("harness: no sink"))),
+        Sh::Snk => KDyn::Snk(SinkLeaf {
+            inner: parts.sink.take().expect("harness: no sink"),
+            alive: parts.alive.clone(),
+            seen: parts.seen.clone(),
+        }),
         Sh::Unit(i) => KDyn::Unit(Box::new(UnitPipe::new(build_kdyn(i, parts)))),
         Sh::Pipe(a, b) => {
             let l = build_dyn(a, parts);
@@ -794,6 +814,10 @@ struct PipeInst {
     /// operations replayed into a clone-free `finalize`: sinks are finalised by rebuilding
     fed: Vec<Q>,
     line: String,
+    /// written by the sink leaf when it is finalised
+    seen: Rc<Cell<i64>>,
+    /// `seen` of the most recent `pfin` (the pipe is rebuilt afterwards)
+    last_alive: Option<i64>,
 }
 
 // ---- the table --------------------------------------------------------------------------------
@@ -815,12 +839,19 @@ fn build_pipe(line: &str) -> PipeInst {
     if let Some(name) = kv.get("static").filter(|n| n.starts_with('C')) {
         let log: Log = Rc::new(RefCell::new(Vec::new()));
         let c = CPipe::build(name, kv.get("shape").expect("harness: pipe without shape"), kv.get("leaves").expect("harness: no leaves"));
-        return PipeInst { top: PipeTop::C(c), log, fed: Vec::new(), line: line.to_string() };
+        return PipeInst { top: PipeTop::C(c), log, fed: Vec::new(), line: line.to_string(), seen: Rc::new(Cell::new(-1)), last_alive: None };
     }
     if let Some(name) = kv.get("static") {
         assert_eq!(toks[2..].join(" "), crate::zpipes::describe(name), "harness: static pipe described differently");
         let log: Log = Rc::new(RefCell::new(Vec::new()));
-        return PipeInst { top: PipeTop::Z(crate::zpipes::build(name), name.to_string()), log, fed: Vec::new(), line: line.to_string() };
+        return PipeInst {
+            top: PipeTop::Z(crate::zpipes::build(name), name.to_string()),
+            log,
+            fed: Vec::new(),
+            line: line.to_string(),
+            seen: Rc::new(Cell::new(-1)),
+            last_alive: None,
+        };
     }
     let shape_s = kv.get("shape").expect("harness: pipe without shape");
     let mut p = P { s: shape_s.as_bytes(), i: 0 };
@@ -828,6 +859,8 @@ fn build_pipe(line: &str) -> PipeInst {
     let leaves_s = kv.get("leaves").map(|s| s.as_str()).unwrap_or("-");
     let log: Log = Rc::new(RefCell::new(Vec::new()));
     let mut leaves = Vec::new();
+    let alive = Rc::new(Cell::new(0i64));
+    let seen = Rc::new(Cell::new(-1i64));
     if leaves_s != "-" {
         for (idx, l) in leaves_s.split('|').enumerate() {
             let parts: Vec<&str> = l.split(';').collect();
@@ -841,13 +874,16 @@ fn build_pipe(line: &str) -> PipeInst {
                 "p_max" => ProbeInner::Own(OwnStage::RunMax { m: None }),
                 kind => ProbeInner::Lib(filt::build(kind, &lkv)),
             };
-            leaves.push(Some(Probe { inner, idx, log: log.clone() }));
+            alive.set(alive.get() + 1);
+            leaves.push(Some(Probe { inner, idx, log: log.clone(), alive: alive.clone() }));
         }
     }
     let mut parts = Parts {
         leaves,
         source: kv.get("source").map(|s| parse_src(s)),
         sink: kv.get("sink").map(|s| build_sink(s).expect("harness: unknown sink kind")),
+        alive,
+        seen: seen.clone(),
     };
     let top = if parts.source.is_some() {
         PipeTop::S(build_sdyn(&sh, &mut parts))
@@ -856,7 +892,7 @@ fn build_pipe(line: &str) -> PipeInst {
     } else {
         PipeTop::F(build_dyn(&sh, &mut parts))
     };
-    PipeInst { top, log, fed: Vec::new(), line: line.to_string() }
+    PipeInst { top, log, fed: Vec::new(), line: line.to_string(), seen, last_alive: None }
 }
 
 impl Other {
@@ -937,7 +973,10 @@ impl Other {
                         _ => panic!("harness: pclone of a pipe that is not clonable"),
                     };
                     let line = self.pipes[&a].line.clone();
-                    self.pipes.insert(b, PipeInst { top: PipeTop::C(copy), log: Rc::new(RefCell::new(Vec::new())), fed: Vec::new(), line });
+                    self.pipes.insert(
+                        b,
+                        PipeInst { top: PipeTop::C(copy), log: Rc::new(RefCell::new(Vec::new())), fed: Vec::new(), line, seen: Rc::new(Cell::new(-1)), last_alive: None },
+                    );
                 } else {
                     let src = match &self.pipes[&b].top {
                         PipeTop::C(c) => c.clone(),
@@ -984,7 +1023,9 @@ impl Other {
                     PipeTop::Z(z, _) => z.finalize(),
                     _ => panic!("harness: pfin on a non-sink pipe"),
                 };
+                let seen_now = p.seen.get();
                 let mut again = build_pipe(&line);
+                again.last_alive = Some(seen_now);
                 if let PipeTop::K(Some(d)) = &mut again.top {
                     for x in &fed {
                         d.sink(*x);
@@ -999,6 +1040,11 @@ impl Other {
                 self.pipes.insert(i, again);
                 Some(r)
             }
+            // how many of the pipe's stages existed when its sink was finalised by the most recent `pfin`
+            "palive" => Some(match self.pipes[&id(toks[1])].last_alive {
+                Some(n) => format!("{}", n),
+                None => "none".to_string(),
+            }),
             "plog" => {
                 let p = &self.pipes[&id(toks[1])];
                 if let PipeTop::Z(_, name) = &p.top {
